@@ -1,6 +1,7 @@
 (* C20 — Surfaces are total, bounded, deterministic folds over the frame stream.
-   Statements only; proofs are in Proofs/TuiProofs.v.  Every theorem is closed by `exact`. *)
+   Statements only; proofs are in Proofs/{Tui,Headless,Summary,Views}Proofs.v.  Every theorem is closed by `exact`. *)
 From RipV Require Import Base.Prelude Model.Tui Proofs.TuiProofs Model.Headless Proofs.HeadlessProofs.
+From RipV Require Model.Summary Proofs.SummaryProofs Model.Views Proofs.ViewsProofs Gen.TuiCutSites.
 
 (* memory bounds after ANY frame sequence (any order, gaps, repeats, mixed streams, any capacities) *)
 Theorem c20_bounds : forall (max_frames : nat) (max_out : N) (af : bool) (evs : list ev),
@@ -15,6 +16,24 @@ Theorem c20_frames_bounded : forall (m : nat) (fs : list frame),
   (length (frames (fold_left fs_push fs (fs_new m))) <= Nat.max m 1)%nat.
 Proof. exact frames_bounded. Qed.
 Print Assumptions c20_frames_bounded.
+
+(* The tool / task / job maps grow with the number of ids (by design).  What does hold, for every frame sequence:
+   at most one entry per DISTINCT id for which a creating frame was seen (tool_started; tool_task_spawned or
+   tool_task_status; continuity_job_spawned or _ended), no duplicate keys, and the text the state holds is within
+   the output cap plus 8192 bytes for each of the 2 (tool) / 3 (task) preview slots of those ids. *)
+Theorem c20_maps_bounded_by_distinct_ids : forall (max_frames : nat) (max_out : N) (af : bool) (evs : list ev),
+  let s := run_tui max_frames max_out af evs in
+  (nlen (st_tools s) <= distinct (tool_ids evs) /\ NoDup (keys (st_tools s)))
+  /\ (nlen (st_tasks s) <= distinct (task_ids evs) /\ NoDup (keys (st_tasks s)))
+  /\ (nlen (st_jobs s) <= distinct (job_ids evs) /\ NoDup (keys (st_jobs s)))
+  /\ held_bytes s <= N.max max_out 1 + 8192 * (2 * distinct (tool_ids evs) + 3 * distinct (task_ids evs)).
+Proof. exact tui_maps_bounded. Qed.
+Print Assumptions c20_maps_bounded_by_distinct_ids.
+
+(* ... and no bound independent of the ids exists: n distinct tool ids give n entries *)
+Theorem c20_maps_unbounded_in_ids : forall n : nat, exists evs, length (st_tools (run_tui 1 1 true evs)) = n.
+Proof. exact tui_maps_grow_with_ids. Qed.
+Print Assumptions c20_maps_unbounded_in_ids.
 
 (* a lookup by seq returns that frame or nothing — for every store whatsoever *)
 Theorem c20_lookup_sound : forall (s : fstore) (q : N) (f : frame),
@@ -79,6 +98,125 @@ Theorem c20_headless_fallback_starts_with_tool_stdout : forall (pre rest : list 
   exists tail, headless_output (pre ++ HEnded :: rest) = stdouts pre ++ tail.
 Proof. exact headless_fallback_starts_with_tool_stdout. Qed.
 Print Assumptions c20_headless_fallback_starts_with_tool_stdout.
+
+(* ---------- headless raw and metrics views (rip-cli render_message + metrics.rs), Model/Views.v ---------- *)
+(* raw view = identity on frame lines: exactly the lines received, each with its newline, up to and including
+   the first session_ended *)
+Theorem c20_raw_view_identity : forall (pre : list Views.line) (e : Views.line) (rest : list Views.line),
+  forallb ViewsProofs.valid_open pre = true -> ViewsProofs.valid_end e = true ->
+  Views.raw_view (pre ++ e :: rest) = (ViewsProofs.echo (pre ++ [e]), Views.END_STOPPED, nlen pre).
+Proof. exact ViewsProofs.raw_view_identity_until_end. Qed.
+Print Assumptions c20_raw_view_identity.
+
+Theorem c20_raw_view_identity_no_end : forall ls : list Views.line,
+  forallb ViewsProofs.valid_open ls = true -> Views.raw_view ls = (ViewsProofs.echo ls, Views.END_EXHAUSTED, nlen ls).
+Proof. exact ViewsProofs.raw_view_identity_no_end. Qed.
+Print Assumptions c20_raw_view_identity_no_end.
+
+(* a line that is not a frame is refused (error), and nothing of it is printed, in both views *)
+Theorem c20_views_refuse_non_frame : forall (pre : list Views.line) (bad : Views.line) (rest : list Views.line),
+  forallb ViewsProofs.valid_open pre = true -> ViewsProofs.not_frame bad = true ->
+  Views.raw_view (pre ++ bad :: rest) = (ViewsProofs.echo pre, Views.END_ERROR, nlen pre)
+  /\ Views.metrics_view (pre ++ bad :: rest) = ([], Views.END_ERROR, nlen pre).
+Proof. exact ViewsProofs.views_refuse_non_frame. Qed.
+Print Assumptions c20_views_refuse_non_frame.
+
+(* metrics view: silent until the first session_ended, then one line = the JSON of the fold of the frames up to
+   and including it *)
+Theorem c20_metrics_view_is_fold : forall (pre : list Views.line) (e : Views.line) (rest : list Views.line),
+  forallb ViewsProofs.valid_open pre = true -> ViewsProofs.valid_end e = true ->
+  Views.metrics_view (pre ++ e :: rest)
+  = (Views.metrics_json (ViewsProofs.msteps Views.mstate0 (ViewsProofs.frames_of (pre ++ [e]))) ++ [10],
+     Views.END_STOPPED, nlen pre).
+Proof. exact ViewsProofs.metrics_view_is_fold_until_end. Qed.
+Print Assumptions c20_metrics_view_is_fold.
+
+(* both views stop at the first session_ended *)
+Theorem c20_views_ignore_after_end : forall (pre : list Views.line) (e : Views.line) (rest1 rest2 : list Views.line),
+  forallb ViewsProofs.valid_open pre = true -> ViewsProofs.valid_end e = true ->
+  Views.raw_view (pre ++ e :: rest1) = Views.raw_view (pre ++ e :: rest2)
+  /\ Views.metrics_view (pre ++ e :: rest1) = Views.metrics_view (pre ++ e :: rest2).
+Proof. exact ViewsProofs.views_ignore_after_end. Qed.
+Print Assumptions c20_views_ignore_after_end.
+
+(* the metrics are a function of the frames alone (not of how the lines are laid out), and both views end at the
+   same line of every stream *)
+Theorem c20_metrics_depend_on_frames_only : forall ls1 ls2 : list Views.line,
+  map Views.l_frame ls1 = map Views.l_frame ls2 -> Views.metrics_view ls1 = Views.metrics_view ls2.
+Proof. exact ViewsProofs.metrics_view_depends_on_frames_only. Qed.
+Print Assumptions c20_metrics_depend_on_frames_only.
+
+Theorem c20_views_end_together : forall ls : list Views.line,
+  snd (fst (Views.raw_view ls)) = snd (fst (Views.metrics_view ls)) /\ snd (Views.raw_view ls) = snd (Views.metrics_view ls).
+Proof. exact ViewsProofs.views_end_together. Qed.
+Print Assumptions c20_views_end_together.
+
+Example c20_views_demo :
+  Views.raw_view ViewsProofs.demo_lines = ([123; 49; 125; 10; 32; 123; 50; 125; 10; 123; 51; 125; 10], Views.END_STOPPED, 2)
+  /\ Views.metrics_view ViewsProofs.demo_lines = (ViewsProofs.demo_metrics_text, Views.END_STOPPED, 2)
+  /\ nlen ViewsProofs.demo_metrics_text = 215
+  /\ firstn 12 ViewsProofs.demo_metrics_text = [123;34;101;50;101;95;109;115;34;58;48;44]
+  /\ Views.raw_view (skipn 3 ViewsProofs.demo_lines) = ([], Views.END_ERROR, 0).
+Proof. exact ViewsProofs.demo_views. Qed.
+
+(* ---------- timeline summaries (rip-tui summary.rs: event_type / event_summary over all 38 kinds) ---------- *)
+(* bounded: at most 652 characters (a 64-character value, the ellipsis, every character escaped to at most 10,
+   two quotes) for every frame, whatever its payload — except the kinds that copy a field verbatim *)
+Theorem c20_summary_bounded : forall (unp : list N) (k : Summary.skind),
+  Summary.passthrough k = None -> (length (Summary.event_summary unp k) <= 652)%nat.
+Proof. exact SummaryProofs.summary_bounded. Qed.
+Print Assumptions c20_summary_bounded.
+
+(* tool_started / tool_task_spawned / tool_task_signalled and an error-free provider event with a name show the
+   field as it is: their summary is as long as the frame makes it (summary.rs does not truncate them) *)
+Theorem c20_summary_verbatim_kinds : forall (unp : list N) (k : Summary.skind) (s : Summary.str),
+  Summary.passthrough k = Some s -> Summary.event_summary unp k = s.
+Proof. exact SummaryProofs.summary_passthrough. Qed.
+Print Assumptions c20_summary_verbatim_kinds.
+
+Definition c20_summary_bounded_full : Prop :=
+  forall (unp : list N) (k : Summary.skind), (length (Summary.event_summary unp k) <= 652)%nat.
+Theorem c20_summary_bounded_full_refuted : forall (unp : list N) (n : nat),
+  exists k, (n < length (Summary.event_summary unp k))%nat.
+Proof. exact SummaryProofs.summary_unbounded_for_passthrough. Qed.
+Print Assumptions c20_summary_bounded_full_refuted.
+
+(* truncate cuts between two characters: the kept part is a prefix of exactly max_len characters of the input,
+   followed by the ellipsis; shorter inputs come back unchanged *)
+Theorem c20_truncate_on_char_boundary : forall (n : nat) (s : Summary.str),
+  ((length s <= n)%nat /\ Summary.trunc n s = s)
+  \/ ((n < length s)%nat /\ exists pre suf, s = pre ++ suf /\ length pre = n /\ Summary.trunc n s = pre ++ [Summary.ELLIPSIS]).
+Proof. exact SummaryProofs.trunc_prefix. Qed.
+Print Assumptions c20_truncate_on_char_boundary.
+
+(* the summary and the type name depend on the frame's payload only (not on seq, time, ids); the 38 type names
+   are pairwise different *)
+Theorem c20_summary_depends_on_frame_only : forall (unp : list N) (f1 f2 : Summary.sframe),
+  Summary.sf_kind f1 = Summary.sf_kind f2 ->
+  Summary.summary_of unp f1 = Summary.summary_of unp f2 /\ Summary.type_of f1 = Summary.type_of f2.
+Proof. exact SummaryProofs.summary_depends_on_frame_only. Qed.
+Print Assumptions c20_summary_depends_on_frame_only.
+
+Theorem c20_event_type_injective : forall k1 k2 : Summary.skind,
+  Summary.event_type k1 = Summary.event_type k2 -> Summary.kind_tag k1 = Summary.kind_tag k2.
+Proof. exact SummaryProofs.event_type_injective. Qed.
+Print Assumptions c20_event_type_injective.
+
+Example c20_summary_demo :
+  Summary.event_summary [] (Summary.SSessionStarted SummaryProofs.demo_long)
+    = [34] ++ repeat 97 63 ++ [8364; Summary.ELLIPSIS; 34]
+  /\ length (Summary.event_summary [] (Summary.SSessionStarted SummaryProofs.demo_long)) = 67%nat
+  /\ Summary.event_summary [8203] (Summary.SToolFailed [8203; 10]) = [34; 92; 117; 123; 50; 48; 48; 98; 125; 92; 110; 34]
+  /\ Summary.passthrough (Summary.SSessionStarted SummaryProofs.demo_long) = None.
+Proof. exact SummaryProofs.demo_summary. Qed.
+
+(* ---------- T1: every byte-position cut of a string in crates/rip-tui/src and rip-cli main.rs (regenerated from
+   the source on every run) is brought onto a character boundary first; the local `truncate` helpers count
+   characters ---------- *)
+Theorem c20_cut_sites_on_char_boundaries :
+  TuiCutSites.gen_ok_cut_sites && TuiCutSites.gen_cut_fns_char_based && TuiCutSites.cut_sites_wf TuiCutSites.gen_cut_sites = true.
+Proof. exact TuiCutSites.gen_cut_sites_ok. Qed.
+Print Assumptions c20_cut_sites_on_char_boundaries.
 
 Example c20_headless_demo :
   headless_output [HToolStdout [120]; HDelta [104; 105]; HOther; HDelta []; HEnded; HDelta [33]] = [104; 105; 10].
